@@ -508,7 +508,19 @@ class Ownership:
                 if 'BitStore' in rt:
                     a = e.func.attr
                     if a == 'copy':
-                        return {('MAYBE_SHARED', self.owner_classes(e.func.value, node))}
+                        owners = self.owner_classes(e.func.value, node)
+                        # "a mutable-class object has an unflagged store" holds for claimed objects only: an unclaimed temporary
+                        # (the result of operand promotion, which skips __init__) of a mutable class may still hold the cached store
+                        ow = e.func.value
+                        while isinstance(ow, ast.Attribute) and ow.attr != '_bitstore':
+                            ow = ow.value
+                        base = ow.value if isinstance(ow, ast.Attribute) else None
+                        if isinstance(base, ast.Name):
+                            binds = self.E.locals(node).get(base.id, set())
+                            is_self = ('self',) in binds
+                            if (is_self and VIEWK in self.selfkinds.get(node, ())) or any(b[0] == 'view' for b in binds):
+                                owners = frozenset()
+                        return {('MAYBE_SHARED', owners)}
                     if a == '_copy' or a.startswith('getslice'):
                         return {('FRESH',)}
             # resolved library function
